@@ -397,13 +397,14 @@ def families(tier, seed):
     fams.append(("histories", [{"prefix": pr, "depth": depth} for pr in pref]))
     fams.append(("successive", [{"entry": n} for n in P.names]))
     fams.append(("fresh_process", [{"part": 0}]))
+    fams.append(("tiny_probabilities", [{"delta": d} for d in (1e-9, 1e-10, 1e-11, 4e-13)]))
     return fams
 
 
 def execute(family, params, seed):
     fn = {"sampler_boundary": ex_boundary, "sampler_grid": ex_grid, "stream_plumbing": ex_plumbing,
           "multinomial_requests": ex_requests, "empi_prefix": ex_empi, "histories": ex_histories,
-          "successive": ex_successive, "fresh_process": ex_fresh}[family]
+          "successive": ex_successive, "fresh_process": ex_fresh, "tiny_probabilities": ex_tiny}[family]
     P = pool(seed)
     capture(P)
     saved = np.random.get_state()
@@ -542,8 +543,101 @@ def ex_grid(prm, seed):
                 fail_once(out, "generate_data_from_prob_dist:grid:fraction-deviates-from-p",
                           "%s (%s, N=%d): outcome %d of probability %r received %d numbers (N p = %r)" % (name, gname, N, i, p[i], cnt[i], N * p[i]))
             dig.append(cnt)
+    # an explicitly passed (looser) tolerance is a tolerance on the SUM of the vector: it does not change which outcomes are drawn
+    if prm["lo"] == 0:
+        extra = [("small-entries-a", [0.00390625, 0.49609375, 0.5]), ("small-entries-b", [0.25, 0.0078125, 0.7421875]),
+                 ("small-entries-c", [0.0078125] * 4 + [0.96875])]
+        for name, p in extra:
+            cum = M.float_cumsum(p)
+            us = (np.arange(N) + 0.5) / float(N)
+            for form in ("keyword", "positional", "global-setting"):
+                gen = ScriptGen(lambda k, size: us)
+                parr = np.array(p, dtype=np.float64)
+                if form == "keyword":
+                    ok, data = A.call(dg.generate_data_from_prob_dist, parr, N, seed_or_generator=gen, atol=1e-2)
+                elif form == "positional":
+                    ok, data = A.call(dg.generate_data_from_prob_dist, parr, N, gen, 1e-2)
+                else:
+                    from quara.settings import Settings
+                    keep = Settings.get_atol()
+                    Settings.set_atol(1e-2)
+                    try:
+                        ok, data = A.call(dg.generate_data_from_prob_dist, parr, N, seed_or_generator=gen)
+                    finally:
+                        Settings.set_atol(keep)
+                out.ops += 1
+                out.traces += 1
+                out.count("explicit_tolerance_tables")
+                if not ok:
+                    fail_once(out, "generate_data_from_prob_dist:explicit-tolerance:raises:" + form, "%s atol=1e-2: %s" % (name, A.fmt_exc(data)))
+                    continue
+                judge_outcomes(out, name, p, cum, us, data, "explicit-tolerance")
+                arr = np.array([d if type(d) is int and 0 <= d < len(p) else 0 for d in data] if isinstance(data, list) else [0])
+                cnt = np.bincount(arr, minlength=len(p))
+                dev = np.abs(cnt - N * np.array(p))
+                if dev.max() > 1 + 1e-6:
+                    i = int(dev.argmax())
+                    fail_once(out, "generate_data_from_prob_dist:explicit-tolerance:fraction-deviates-from-p:" + form,
+                              "%s with atol=1e-2 (%s), N=%d: outcome %d of probability %r received %d numbers (N p = %r)" % (name, form, N, i, p[i], cnt[i], N * p[i]))
     inner(out, 2 * len(dists) - 1)
     out.digest = A.digest(*dig) if dig else ""
+    out.outcome = "ok" if not out.fails else "fail"
+    return out
+
+
+# ---- true / tester objects with Born probabilities between 1e-13 and 1e-8 (real scipy sampler) ---------------------------
+
+def ex_tiny(prm, seed):
+    """nearly pure objects measured in their eigenbasis: some Born probabilities lie in (1e-13, 1e-8). Every tomography-level
+    generator must deliver data (no exception) and valid empirical distributions."""
+    from quara.protocol.qtomography.standard.standard_qst import StandardQst
+    from quara.protocol.qtomography.standard.standard_povmt import StandardPovmt
+    from quara.protocol.qtomography.standard.standard_qpt import StandardQpt
+    from quara.protocol.qtomography.standard.standard_qmpt import StandardQmpt
+    out = Out()
+    c = A.make_system("Q1")
+    delta = prm["delta"]
+    I2 = np.eye(2, dtype=complex)
+    P0, P1 = np.diag([1.0, 0.0]).astype(complex), np.diag([0.0, 1.0]).astype(complex)
+    xp = np.array([[1, 1], [1, 1]], dtype=complex) / 2
+    yp = np.array([[1, -1j], [1j, 1]], dtype=complex) / 2
+    rho = (1 - delta) * P0 + delta * I2 / 2
+    povms = [A.q_povm(c, [P0, P1]), A.q_povm(c, [xp, I2 - xp]), A.q_povm(c, [yp, I2 - yp])]
+    states = [A.q_state(c, rho), A.q_state(c, xp), A.q_state(c, yp), A.q_state(c, P1)]
+    cases = {
+        "StandardQst": (StandardQst(list(povms)), A.q_state(c, rho)),
+        "StandardPovmt": (StandardPovmt(list(states), 2), A.q_povm(c, [P0, P1])),
+        "StandardQpt": (StandardQpt(list(states), list(povms)), A.q_gate(c, [I2])),
+        "StandardQmpt": (StandardQmpt(list(states), list(povms), 2), A.q_mprocess(c, [[P0], [P1]])),
+    }
+    n = 0
+    for cname, (qt, true) in cases.items():
+        okp, pds = A.call(qt.calc_prob_dists, true)
+        if not okp:
+            raise HarnessError("tiny: model distributions unavailable: %s" % A.fmt_exc(pds))
+        tiny = sum(1 for pd in pds for x in np.asarray(pd, float).ravel() if 0 < abs(x) < 1e-8)
+        out.count("tiny_model_probabilities", tiny)
+        calls = [("generate_empi_dists", lambda: qt.generate_empi_dists(true, 50, 5)),
+                 ("generate_empi_dist", lambda: [qt.generate_empi_dist(0, true, 50, 5)]),
+                 ("generate_empi_dists_sequence", lambda: [e for step in qt.generate_empi_dists_sequence(true, [10, 50], 5) for e in step])]
+        for fname, fn in calls:
+            ok, val = A.call(fn)
+            out.ops += 1
+            out.traces += 1
+            n += 1
+            site = "%s.%s" % (cname, fname)
+            if not ok:
+                fail_once(out, "%s:raises:tiny-born-probability:%s" % (site, type(val).__name__),
+                          "true/tester object depolarised by %g (a Born probability of %g): %s" % (delta, delta / 2, A.fmt_exc(val)))
+                continue
+            out.count("tiny_generators_delivered")
+            for (N, q) in val:
+                q = np.asarray(q, dtype=float)
+                k = q * N
+                if q.min() < 0 or abs(q.sum() - 1) > 1e-12 or np.abs(k - np.round(k)).max() > 1e-9 * N:
+                    fail_once(out, "%s:invalid-empirical-distribution:tiny-born-probability" % site, "N=%d q=%r" % (N, q.tolist()))
+                    break
+    inner(out, max(n - 1, 0))
     out.outcome = "ok" if not out.fails else "fail"
     return out
 
